@@ -84,6 +84,23 @@ Theorem C17_mac_padding : forall data, (1 <= length data)%nat -> wf_bytes data =
 Proof. exact py_mac_pad_exact. Qed.
 Print Assumptions C17_mac_padding.
 
+(* net_if_addrs() over ANY interface list (hardware addresses of any sll_halen up to 255, IP records, nodes
+   without address or of unknown family, any flags): one row per node with an address of a known family, the
+   hardware address shown with all its bytes, netmask, and broadcast or peer address by the flags *)
+Theorem C17_net_if_addrs_rows : forall junk l,
+  length junk = NI_MAXHOST -> forallb wf_ifa l = true -> c_net_if_addrs junk l = Val (spec_if_rows l).
+Proof. exact c_net_if_addrs_exact. Qed.
+Print Assumptions C17_net_if_addrs_rows.
+
+(* the Python layer only reorders the rows (sort by family) and completes link-layer addresses shorter than 6 bytes *)
+Theorem C17_net_if_addrs_python : forall rows,
+  Permutation.Permutation (py_net_if_addrs rows) (map pad_row rows)
+  /\ (forall r, n_fam r <> AF_PACKET -> pad_row r = r)
+  /\ (forall r data, n_fam r = AF_PACKET -> n_addr r = spec_mac data -> (1 <= length data)%nat ->
+        wf_bytes data = true -> pad_row r = spec_pad_row r data).
+Proof. exact (fun rows => conj (py_net_if_addrs_perm rows) (conj pad_row_other pad_row_link)). Qed.
+Print Assumptions C17_net_if_addrs_python.
+
 (* ---------------------------------------------------------------- CPU sets *)
 (* CPU_SET on any C long: the bit touched is < 1024 (the size of cpu_set_t), or nothing is touched *)
 Theorem C17_cpu_set_safe : forall value c, cpu_set_touch value = Some c -> 0 <= c < 1024.
